@@ -337,8 +337,7 @@ fn large(rep: &Report, tier: Tier) {
             continue;
         };
         // template receiver snapshot for position `pos`
-        let slot = fid as usize % 2;
-        let Some((ctx_s0, _)) = rx0.mem.frags[slot].clone() else {
+        let Some((ctx_s0, _)) = rx0.mem.ctx_in_class(fid).cloned() else {
             rep.violation("C02|receiver-has-no-context-after-first", p as u64, || (format!("{}: the receiver holds no context in the slot of frag id {} after accepting the first fragment", c.desc, fid), json!({"case": c.desc})));
             continue;
         };
@@ -346,9 +345,9 @@ fn large(rep: &Report, tier: Tier) {
             let mut r = rx0.clone();
             let mut cs = ctx_s0.clone();
             cs.pdu_len = pos as u16;
-            let mut b = vec![0u8; rx0.mem.frags[slot].as_ref().unwrap().1.len()];
+            let mut b = vec![0u8; rx0.mem.ctx_in_class(fid).unwrap().1.len()];
             b[..pos].copy_from_slice(&c.pdu[..pos]);
-            r.mem.frags[slot] = Some((cs, b));
+            r.mem.set_ctx(cs, b);
             r
         };
         // the constructed snapshot must agree with the real one at the first position
